@@ -10,13 +10,87 @@ int ar_put(int d);
 void ar_putchar(int ch);
 int ar_get(void);
 int ar_empty(void);
+int ar_long_haul(unsigned long long len, unsigned hold, unsigned long long pairs, char *msg, size_t msglen);
 }
 
 const char *H_NAME = "ringseq";
 
+// long hauls: histories and lengths no random sequence reaches - more than 2^32 bytes through one small ring (index
+// arithmetic that is only right until a counter wraps), and rings of 2^31 bytes and more (index arithmetic in int)
+struct Haul {
+	unsigned long long len;
+	unsigned hold;
+	unsigned long long pairs;
+	bool heavy; // about a minute or more: thorough tier only
+	const char *what;
+};
+static const Haul HAULS[] = {
+	{ 3, 1, 200000, false, "ring of 3 bytes, 1 in flight, 200 000 bytes" },
+	{ 7, 5, (1ull << 24) + 1000, false, "ring of 7 bytes, 5 in flight, 2^24+1000 bytes" },
+	{ 255, 200, (1ull << 24) + 1000, false, "ring of 255 bytes, 200 in flight, 2^24+1000 bytes" },
+	{ 65537, 65000, (1ull << 24) + 1000, false, "ring of 65537 bytes, 65000 in flight, 2^24+1000 bytes" },
+	{ 3, 1, (1ull << 32) + 1000, true, "ring of 3 bytes, 1 in flight, 2^32+1000 bytes" },
+	{ 7, 5, (1ull << 32) + 1000, true, "ring of 7 bytes, 5 in flight, 2^32+1000 bytes" },
+	{ 6, 2, (1ull << 32) + 1000, true, "ring of 6 bytes, 2 in flight, 2^32+1000 bytes" },
+	{ (1ull << 31) + 5, 3, (1ull << 31) + 2000, true, "ring of 2^31+5 bytes, 3 in flight, one full lap" },
+	{ (1ull << 31), 3, (1ull << 31) + 2000, true, "ring of 2^31 bytes, 3 in flight, one full lap" },
+	{ (1ull << 32) - 1, 3, (1ull << 32) + 2000, true, "ring of 2^32-1 bytes, 3 in flight, one full lap" },
+};
+static const int NHAUL = sizeof HAULS / sizeof *HAULS;
+
+static void haul_case(Ctx &c, int i)
+{
+	char msg[300] = "";
+	c.note("long haul: %s", HAULS[i].what);
+	c.cls("long-haul");
+	c.nontrivial = true;
+	int r = ar_long_haul(HAULS[i].len, HAULS[i].hold, HAULS[i].pairs, msg, sizeof msg);
+	if (r == 1)
+		c.fail("%s", msg);
+	else if (r == 2)
+		c.cls("long-haul-skipped (cannot map the region)");
+}
+
+void h_custom(long worker, long workers, long seed, std::map<std::string, std::string> &params, CustomOut &o)
+{
+	(void)seed;
+	bool heavy = params.count("heavy") && params["heavy"] != "0";
+	for (int i = 0; i < NHAUL && !o.failed; i++) {
+		if ((long)(i % workers) != worker || (HAULS[i].heavy && !heavy))
+			continue;
+		Tape t;
+		Ctx c(t);
+		if (engine_custom_case) {
+			char pl[40];
+			snprintf(pl, sizeof pl, "param haul=%d\n", i + 1);
+			engine_custom_case(0, pl);
+		}
+		haul_case(c, i);
+		o.evaluations++;
+		o.nontrivial++;
+		o.distinct++;
+		o.classes["long-haul"]++;
+		if (HAULS[i].pairs > (1ull << 32))
+			o.classes["more-than-2^32-bytes-through-one-ring"]++;
+		if (HAULS[i].len >= (1ull << 31))
+			o.classes["ring-of-2^31-bytes-or-more"]++;
+		o.samples.push_back(HAULS[i].what);
+		if (c.failed) {
+			o.failed = true;
+			o.failmsg = c.failmsg;
+			o.fail_tape = {};
+			o.fail_params["haul"] = std::to_string(i + 1);
+		}
+	}
+}
+
 void h_run(Ctx &c)
 {
 	Tape &t = c.t;
+	if (long h = c.param("haul", 0)) { // replay path of the long-haul stage
+		haul_case(c, (int)h - 1);
+		return;
+	}
 	unsigned len;
 	bool big = false;
 	if (t.enumerating)
